@@ -108,7 +108,9 @@ impl Mul<f64> for Duration {
         let ten: f64 = 10.0;
 
         loop {
-            if (new_val.trunc() - new_val).abs() < f64::EPSILON {
+            // An integer-valued product (always the case from 2^52 on) needs no more digits; 38 is
+            // the last power of ten an i128 holds, further digits cannot reach a whole nanosecond.
+            if new_val.trunc() == new_val || p == 38 {
                 // Yay, we've found the precision of this number
                 break;
             }
